@@ -348,13 +348,13 @@ func (f *File) parseIndirect(b []byte, pos int64, want Ref, entries map[uint32]*
 		l.pos = start + length
 		n := eolLen(b, l.pos)
 		if !(n > 0 && bytes.HasPrefix(b[l.pos+n:], []byte("endstream"))) {
+			// the statement (and ISO 32000-2, 7.3.8.1: "shall") wants an
+			// end-of-line marker between the data and endstream that is not
+			// counted in /Length
 			if bytes.HasPrefix(b[l.pos:], []byte("endstream")) {
-				// no EOL before endstream: tolerated by the letter of the
-				// spec ("should"), but then /Length must still be exact
-				n = 0
-			} else {
-				return nil, fmt.Errorf("stream /Length %d is wrong: expected EOL+endstream at offset %d, found %q", length, l.pos, b[l.pos:min(l.pos+16, len(b))])
+				return nil, fmt.Errorf("stream /Length %d: no end-of-line marker between the data and endstream at offset %d (the data's own last byte does not count)", length, l.pos)
 			}
+			return nil, fmt.Errorf("stream /Length %d is wrong: expected EOL+endstream at offset %d, found %q", length, l.pos, b[l.pos:min(l.pos+16, len(b))])
 		}
 		l.pos += n + len("endstream")
 		v = &Stream{Dict: d, Raw: b[start : start+length], Start: int64(start)}
